@@ -276,7 +276,12 @@ class Master(loader.Loader):
                 return
 
             if state == scheduler.State.up.value:
-                server.set_state(scheduler.State.up, time.time())
+                if self.backend.exists(z.path.server_presence(servername)):
+                    server.set_state(scheduler.State.up, time.time())
+                else:
+                    # Server without presence stays down, otherwise apps are
+                    # kept (and new ones placed) on a dead server.
+                    _LOGGER.warning('Server is not present: %s', servername)
             elif state == scheduler.State.down.value:
                 server.set_state(scheduler.State.down, time.time())
             else:
